@@ -169,6 +169,24 @@ def c15_3(c: Ctx) -> None:
             c.fail(u, 'idle-flag wait reachable without awaiting event_queue.join()', 'wait_until_idle does not wait for events that are still queued', node=fw.ast, witness=c.path(g.entry, p))
 
 
+@ob('C15.9', 'MPT', 'wait_until_idle() makes sure a run loop is alive before it waits: every path from its entry to its first suspension passes through self._start() (which is '
+    'a no-op on a running bus). A bus whose run loop has ended without stop() - a handler that raised CancelledError ends it - still has its queue and its flag, and nobody '
+    'else would drain what wait_until_idle() is about to join')
+def c15_9(c: Ctx) -> None:
+    u = c.unit(SVC, 'EventBus.wait_until_idle')
+    g = c.cfg(u)
+    self_ = u.params()[0]
+    starts = {n.id for n in g.live_nodes() if any(U(x.func) == f'{self_}._start' for x in q.node_calls(n, '_start'))}
+    waits = [n for n in g.live_nodes() if q.node_has_await(n)]
+    c.floor(len(waits), 4, 'suspension points in wait_until_idle')
+    p = q.reach_search(g, [(g.entry, {})], lambda n, d: q.node_has_await(n), lambda n, d: n.id in starts, exc_ok=lambda e: False)
+    if p is None and starts:
+        c.ok(where(u), f'every path to the first suspension calls {self_}._start() ({len(starts)} call site(s))')
+    else:
+        c.fail(u, 'a suspension is reachable without calling _start()', 'wait_until_idle() can wait on a bus whose run loop is not running (never started on this path, or ended by an earlier fault without '
+               'stop()): the queue it joins is never drained and it never returns', witness=c.path(g.entry, p) if p else [])
+
+
 def check_runloop_only_awaits_step(c: Ctx) -> None:
     """Inside its processing loop the run loop awaits nothing but step() (whose only wait is the bounded poll): a running bus never stops consuming its queue."""
     rl = c.unit(SVC, 'EventBus._run_loop')
